@@ -64,3 +64,79 @@ def ncWrite (rs : List Arr) : List Arr :=
   rs.map fun a => { a with cells := List.zipWith (fun c mk => (⟨c.val, mk⟩ : Cell)) a.cells m }
 
 end MPilot
+
+namespace MPilot
+
+/-! ### the layout of the written dataset
+
+Besides the data of the results (`ncWrite`), `EEMSWrite.execute` builds the frame of the output file from a template: the dimensions of the
+template variable `DimensionFieldName`, their coordinate variables with attributes and values, the grid-mapping variable named by the first
+variable carrying an `esri_pe_string`, and the CRS attributes on every result variable.  Attribute values and coordinate values are opaque
+tokens here: they are copied, never computed with. -/
+
+structure NcVarD where
+  name : String
+  dtype : String
+  dims : List String
+  /-- `ncattrs()` with their values, in file order -/
+  attrs : List (String × String)
+  /-- the values `variable[:]` delivers, flat (empty for variables whose data is not copied) -/
+  data : List String
+  deriving Repr, DecidableEq, Inhabited
+
+structure NcFile where
+  dims : List (String × Nat)
+  vars : List NcVarD
+  deriving Repr, DecidableEq, Inhabited
+
+def NcFile.var? (f : NcFile) (n : String) : Option NcVarD := f.vars.find? (·.name == n)
+def NcFile.dim? (f : NcFile) (n : String) : Option Nat := (f.dims.find? (·.1 == n)).map (·.2)
+def NcVarD.attr? (v : NcVarD) (a : String) : Option String := (v.attrs.find? (·.1 == a)).map (·.2)
+
+/-- `setncattr` of every `ncattrs()` entry on a variable that exists already: the library refuses `_FillValue` there (`fix:` in /repo - it is now
+given to `createVariable` instead - so the attribute list is copied whole) -/
+def copyAttrs (attrs : List (String × String)) : List (String × String) := attrs
+
+/-- the coordinate part: one dimension (sized like its coordinate variable) and one variable per dimension of the template field -/
+def layoutDims (tpl : NcFile) : List String → NcFile → Except String NcFile
+  | [], out => .ok out
+  | d :: rest, out =>
+    match tpl.var? d with
+    | none => .error "IndexError"                          -- `dim_dataset[dimension]`: no coordinate variable of that name
+    | some cv =>
+      if (out.dim? d).isSome then .error "RuntimeError"    -- a dimension listed twice: `createDimension` refuses the second
+      else
+        layoutDims tpl rest
+          { dims := out.dims ++ [(d, cv.data.length)],
+            vars := out.vars ++ [{ name := d, dtype := cv.dtype, dims := [d], attrs := copyAttrs cv.attrs, data := cv.data }] }
+
+/-- CRS discovery: the first variable (file order) with an `esri_pe_string`; its `grid_mapping` variable, if the template has it -/
+def crsOf (tpl : NcFile) : Option String × Option NcVarD :=
+  match tpl.vars.find? (fun v => (v.attr? "esri_pe_string").isSome) with
+  | none => (none, none)
+  | some v =>
+    (v.attr? "esri_pe_string",
+     match v.attr? "grid_mapping" with
+     | none => none
+     | some g => tpl.var? g)
+
+/-- `EEMSWrite.execute` as far as the frame of the output file goes -/
+def ncLayout (tpl : NcFile) (dimField : String) (resultNames : List String) : Except String NcFile :=
+  match tpl.var? dimField with
+  | none => .error "IndexError"
+  | some field =>
+    match layoutDims tpl field.dims { dims := [], vars := [] } with
+    | .error e => .error e
+    | .ok out1 =>
+      let (esri, gm) := crsOf tpl
+      -- the grid-mapping variable: its dimensions are created when absent; attributes copied, data not
+      let out2 : NcFile := match gm with
+        | none => out1
+        | some g =>
+          let newDims := g.dims.foldl (fun acc d => if (acc.find? (·.1 == d)).isSome then acc else acc ++ [(d, (tpl.dim? d).getD 0)]) out1.dims
+          { dims := newDims, vars := out1.vars ++ [{ name := g.name, dtype := g.dtype, dims := g.dims, attrs := copyAttrs g.attrs, data := [] }] }
+      let crsAttrs : List (String × String) :=
+        (match esri with | some e => [("esri_pe_string", e)] | none => []) ++ (match gm with | some g => [("grid_mapping", g.name)] | none => [])
+      .ok { out2 with vars := out2.vars ++ resultNames.map fun n => { name := n, dtype := "", dims := field.dims, attrs := crsAttrs, data := [] } }
+
+end MPilot
